@@ -495,19 +495,37 @@ def exclusion_rules(chk, cr, evs):
         ev = evs[q]
         set_true = set_false = False
         thr_ok = False
-        for e in ev.events:
+        true_ev = false_ev = None
+        for idx_e, e in enumerate(ev.events):
             if e.kind == "store" and e.target.as_atom() and e.target.as_atom()[0] == "sub" and e.target.as_atom()[1].as_atom() \
                     and e.target.as_atom()[1].as_atom()[0] == "obj" and e.target.as_atom()[1].as_atom()[1] == "keep":
                 if e.value.key() == "True" and "query_ball_point" in e.target.key():
                     set_true = True
+                    true_ev = (idx_e, e)
                 if e.value.key() == "False":
                     set_false = True
-                    for c, pol in e.guards:
-                        ca = c.as_atom()
-                        if pol and ca and ca[0] == "lt" and ".query(" in ca[1].key():
-                            thr_ok = True
-        chk.ob("R03.5", CR, "Crystal." + q, "atoms inside the ball are marked, and atoms coinciding with the centre's own atoms are unmarked",
-               set_true and set_false and thr_ok, fingerprint="mark")
+                    false_ev = (idx_e, e)
+            # the centre's own sites: nearest site of each centre atom, when closer than the threshold
+            if e.kind == "call" and e.target is not None and e.target.key().endswith(".append") and ".query(" in str(e.extra.get("args", [""])[0]):
+                for c, pol in e.guards:
+                    ca = c.as_atom()
+                    if pol and ca and ca[0] == "lt" and ".query(" in ca[1].key():
+                        thr_ok = True
+        chk.ob("R03.5", CR, "Crystal." + q, "atoms inside the ball are marked, and the sites coinciding with the centre's own atoms (nearest site within "
+               "the threshold) are unmarked", set_true and set_false and thr_ok, fingerprint="mark")
+        # the exclusion must be final: applied after every ball has been marked (outside the loop over the centre's atoms), or
+        # unconditionally at the end of every pass -- a guarded exclusion inside the loop is undone by a later ball
+        final = False
+        if true_ev and false_ev:
+            te, fe = true_ev[1], false_ev[1]
+            inner = te.loops[-1].k if te.loops else None
+            outside = inner is not None and all(l.k != inner for l in fe.loops)
+            own_guards = [c for c, pol in fe.guards if c.key() not in {g.key() for g, _ in te.guards}]
+            final = (outside and false_ev[0] > true_ev[0]) or (not outside and not own_guards and false_ev[0] > true_ev[0])
+        chk.ob("R03.5", CR, "Crystal." + q, "the exclusion of the centre's own atoms is final: it is applied after all balls are marked (a later ball cannot "
+               "switch an own atom back on, whatever the order of the centre's atoms)", final, node=false_ev[1].node if false_ev else None,
+               fingerprint="exclusion-final", expected="keep[own] = False after the loop over the centre's atoms",
+               found=("inside the loop under " + str([str(c)[:50] for c, p in false_ev[1].guards][-1:])) if false_ev and not final else None)
         # order: the False store comes after the True store inside the same loop body so own atoms stay excluded
         rets = ev.returns if q != "functional_group_surroundings" else [e for e in ev.events if e.kind == "call" and e.target is not None and e.target.key().endswith(".append") and "keep" in e.value.key()]
         okk = False
